@@ -589,8 +589,22 @@ def gen_calls(rng, sigs, per_overload):
     return out, skipped
 
 
+_SLOWDOWN = []
+
+
+def slowdown():
+    """how much slower than an idle machine a trivial request currently is (deadlines scale with it, so that a busy
+    machine does not turn ordinary requests into `hangs` and lose their verdicts)"""
+    if not _SLOWDOWN:
+        t = time.time()
+        run_harness([{"op": "run", "src": "let a = 1 + 1;\n", "get": ["a"]}], per_req_timeout=120.0)
+        _SLOWDOWN.append(min(6.0, max(1.0, (time.time() - t) / 0.25)))
+    return _SLOWDOWN[0]
+
+
 def run_sliced(reqs, per_req_timeout=5.0, width=96):
     """run_harness in slices small enough that one request that hangs natively costs seconds, not the whole chunk budget"""
+    per_req_timeout = per_req_timeout * slowdown()
     out = []
     for i in range(0, len(reqs), width):
         out.extend(run_harness(reqs[i:i + width], per_req_timeout=per_req_timeout))
@@ -598,7 +612,7 @@ def run_sliced(reqs, per_req_timeout=5.0, width=96):
     again = [i for i, r in enumerate(out) if "hang" in r][:32]
     if again:
         with ThreadPoolExecutor(max_workers=8) as ex:
-            for i, r in zip(again, ex.map(lambda i: run_harness([reqs[i]], per_req_timeout=25.0)[0], again)):
+            for i, r in zip(again, ex.map(lambda i: run_harness([reqs[i]], per_req_timeout=25.0 * slowdown())[0], again)):
                 out[i] = r
     return out
 
